@@ -65,8 +65,79 @@ func runC14(p *load.Program, r *core.Report) {
 	} else {
 		c12Layout(p, r, lc, writers, readers, rfn, "", "C14.X2 incarnation-guard")
 	}
+	c14Guards(p, r)
 	c14Kinds(p, r)
 	c14Timers(p, r)
+}
+
+// c14Guards: X2b — every request the connection sends about a peer-owned PID or Alias through the
+// generic message path (link/unlink/monitor/demonitor) refuses an identifier whose creation is not
+// the peer's current creation (sibling agreement over the 8 functions).
+func c14Guards(p *load.Program, r *core.Report) {
+	rule := "C14.X2b incarnation-guard-on-requests"
+	r.Floor(rule, 8)
+	connT := p.Named("net/proto", "connection")
+	for _, f := range funcsOfPkgs(p, "net/proto") {
+		if f.Parent() != nil || !recvIs(f, connT) {
+			continue
+		}
+		n := f.Name()
+		isReq := false
+		for _, pre := range []string{"Link", "Unlink", "Monitor", "Demonitor"} {
+			if strings.HasPrefix(n, pre) && (strings.HasSuffix(n, "PID") || strings.HasSuffix(n, "Alias")) {
+				isReq = true
+			}
+		}
+		if !isReq {
+			continue
+		}
+		target := lastParamOfKinds(f, "gen.PID", "gen.Alias")
+		key := "C14.X2b|" + n
+		inst := n + ": a target minted by another incarnation of the peer is refused with an incarnation error before anything is sent"
+		var send ssa.Instruction
+		eachInstr(f, func(in ssa.Instruction) {
+			if callsNamed(in, "sendAny") && send == nil {
+				send = in
+			}
+		})
+		ok := false
+		eachInstr(f, func(in ssa.Instruction) {
+			b, isB := in.(*ssa.BinOp)
+			if !isB || (b.Op != token.NEQ && b.Op != token.EQL) {
+				return
+			}
+			bx, px, _ := fieldPath(b.X)
+			_, py, _ := fieldPath(b.Y)
+			if len(px) == 0 || px[len(px)-1] != "Creation" || len(py) == 0 || py[len(py)-1] != "peer_creation" {
+				return
+			}
+			if !(bx == ssa.Value(target) || spilledParam(bx) == target) {
+				return
+			}
+			t, fl, _ := boolEdges(b)
+			mis, eq := t, fl
+			if b.Op == token.EQL {
+				mis, eq = fl, t
+			}
+			good := len(mis) > 0
+			for _, e := range mis {
+				for _, ret := range walkAvoid([]Point{{e.To(), 0}}, nil, isReturn) {
+					rr := ret.(*ssa.Return)
+					if reasonOrigin(rr.Results[len(rr.Results)-1], 0) != "global:ErrProcessIncarnation" {
+						good = false
+					}
+				}
+			}
+			if good && send != nil && edgesDominate(eq, send) {
+				ok = true
+			}
+		})
+		if ok {
+			r.OK(rule, key, fname(f), p.Pos(f.Pos()), inst, "target.Creation compared with peer_creation; mismatch returns ErrProcessIncarnation; the send is behind the match edge")
+		} else {
+			r.Bad(rule, key, fname(f), p.Pos(f.Pos()), inst, "no such guard: an identifier of an earlier incarnation of the restarted peer is sent on and reaches a process of the new incarnation")
+		}
+	}
 }
 
 func c14Chain(p *load.Program, r *core.Report) {
